@@ -216,6 +216,7 @@ void evaluate(const View& v, const Plan& plan, const std::string& pipeline) {
     }
     if (!dev.kernel_ran) { fail("NO_KERNEL", "evaluation returned without any kernel having run", key("NO_KERNEL")); return; }
     if (dev.has_pending()) { fail("PENDING_KERNEL", "evaluation returned while a kernel was still pending (result read before synchronisation)", key("PENDING_KERNEL")); return; }
+    if (dev.cfg.geometry_only) return;   // no thread ran: only the launch geometry was validated
     if (!ok) { fail("HOST_EQUAL", pipeline + " on " C13_BACKEND_NAME ": " + why, key("HOST_EQUAL")); return; }
     // Elements the byte diff did not see written: legitimate only if the bytes host evaluation expects there were already in
     // place before the launch (poison collision, e.g. int -1 under an all-0xFF fill); anything else was never written.
